@@ -92,7 +92,9 @@ pub fn read_all(ex: &mut HExec) -> String {
                 }
             }
             Ok(None) => format!("{k}:miss"),
-            Err(_) => format!("{k}:err"),
+            // an error is a legitimate answer; a load task that died (a panic inside the load: its waiters are told
+            // "fetch task cancelled" - nothing in this harness cancels tasks) is not
+            Err(e) => if matches!(e.kind(), foyer::ErrorKind::TaskCancelled) { format!("{k}:panic") } else { format!("{k}:err") },
         });
     }
     reads.join(";")
